@@ -2,7 +2,7 @@
     Model: Model/EventGw.v — n alternatives parked at their catch events, the compare-and-swap in
     the action transformer, the winner's notification of every other alternative over its
     termination channel, events delivered in any order and concurrently (every path = a schedule). *)
-From BV Require Import Model.EventGw Proofs.EventGwProofs.
+From BV Require Import Model.EventGw Proofs.EventGwProofs Model.TermChan Proofs.TermChanProofs.
 
 (* at most one alternative wins and at most one branch ever continues — any n, any delivery
    sequence, any schedule, both code variants *)
@@ -54,6 +54,26 @@ Theorem C06_one_winner_refuted_with_split_test_and_set :
   exists s, tas_exec {| flag := false; saw := [None; None]; winners := 0 |} [TLoad 0; TLoad 1; TStore 0; TStore 1] = Some s /\ winners s = 2.
 Proof. exact refuted_split_test_and_set. Qed.
 Print Assumptions C06_one_winner_refuted_with_split_test_and_set.
+
+(* THE OTHERS ARE WITHDRAWN WHENEVER THEY GET TO THEIR SELECT (Model/TermChan.v: the table of termination
+   channels; EventGw.v above assumes a parked alternative holds its channel — this is why it does): in the repaired
+   code no alternative is ever left in its select without a channel, and once the determination is made every
+   other alternative can receive its notice, whether the scheduler ran it before the winner or only afterwards *)
+Theorem C06_no_alternative_without_channel : forall n s, treach false n s -> forall j, tget s j <> Deaf.
+Proof. exact never_deaf. Qed.
+Print Assumptions C06_no_alternative_without_channel.
+Theorem C06_every_other_alternative_withdrawable : forall n s i j,
+  treach false n s -> winner s = Some i -> j < n -> j <> i ->
+  exists p s', length p <= 2 /\ texec false s p = Some s' /\ tget s' j = Noticed.
+Proof. exact all_withdrawable. Qed.
+Print Assumptions C06_every_other_alternative_withdrawable.
+(* the code as found replaced the table when the winner was determined: an alternative that reached its select
+   afterwards found no channel and stayed, for good, until its own event (genuine defect, fixed) *)
+Theorem C06_withdrawal_refuted_when_the_table_is_replaced :
+  exists s, texec true (tinit 2) [Determine 0; Look 1] = Some s /\ tget s 1 = Deaf /\
+            forall p s', texec true s p = Some s' -> tget s' 1 = Deaf.
+Proof. exact refuted_table_swapped. Qed.
+Print Assumptions C06_withdrawal_refuted_when_the_table_is_replaced.
 
 Example C06_nonvacuous :
   exists s, gexec true (ginit 3) [Deliver 1; Deliver 2; Cas 2; Notify; Cas 1; Notify; TakeNotice 0; Proceed; Deliver 0; Deliver 1] = Some s /\
